@@ -64,6 +64,18 @@ def _cols(r: random.Random) -> list:
 def gen_cases(tier: str, seed: int):
     r = random.Random(f"{seed}:C09")
     n, maxsteps = (150, 15) if tier == "quick" else (1000, 30)
+    # fixed histories on every run: the same column / table name declared again with another length, type or comment
+    for (db, sc), t in ((("DB1", "S1"), "T1"), (("DB2", "S1"), "T2")):
+        base = ["create_table", db, sc, t, [["A", "VARCHAR(10)", False], ["B", "VARCHAR(255)", False], ["C", "INT", False]], "c1", False, False, False]
+        yield {"steps": [base, ["drop_column", db, sc, t, "A"], ["add_column", db, sc, t, "A", "VARCHAR(255)"],
+                         ["drop_column", db, sc, t, "B"], ["add_column", db, sc, t, "B", "INT"], ["add_column", db, sc, t, "D", "VARCHAR(10)"],
+                         ["rename_column", db, sc, t, "D", "G"], ["add_column", db, sc, t, "D", "VARCHAR"]]}
+        yield {"steps": [base, ["drop_table", db, sc, t],
+                         ["create_table", db, sc, t, [["A", "VARCHAR(255)", False], ["B", "VARCHAR", False], ["N", "INT", False]], None, False, False, True],
+                         ["create_table", db, sc, t, [["A", "VARCHAR(10)", False], ["Z", "VARCHAR(10)", False]], "c2", False, False, True],
+                         ["create_table", db, sc, t, [["A", "INT", False], ["B", "VARCHAR(10)", False]], None, True, False, False],
+                         ["comment_on", db, sc, t, "new"], ["drop_table", db, sc, t],
+                         ["create_table", db, sc, t, [["A", "VARCHAR", False]], None, False, False, False]]}
     for _ in range(n):
         steps = []
         for _ in range(r.randint(5, maxsteps)):
